@@ -29,4 +29,8 @@ CLAIMED['C01'] = ('DESIGN.md 4/C01', 'The real Nigam-Jennings recurrence is exec
     'independent 80-digit exp(M dt) propagator for ALL records (error bounded relative to sum_k peak_k*|a_k|, the '
     'well-conditioned form of the peak-relative tolerance), plus a one-step inductive query from an arbitrary '
     'reachable state, the third-series identity and the T=0 row, over a stated (T/dt, xi, dt) grid.')
+CLAIMED['C02'] = ('DESIGN.md 4/C02', 'Relational obligations over pairs of symbolic executions of the real response code: '
+    'linearity with symbolic alpha, beta and two symbolic records (polynomial identity), causality, shift, period '
+    'order/batch independence (identical terms) and refinement invariance (all records, tolerance for the two '
+    'different double propagators), n<=8, stated (T/dt, xi) grid.')
 NOT_APPLICABLE = {}
